@@ -270,6 +270,11 @@ def geo_worlds(tier: str, seed: int, *, convs=W.ALL_CONVS, big: bool = True) -> 
             w["bind"] = "explicit"      # see worlds.bind
             if w.get("via") == "emsopen" or True:
                 w["no_emsopen"] = True
+    for k, w in enumerate(out):
+        g = w.get("geom") or {}
+        desc = w["conv"] == "cf1d" and (g["xc"][0] > g["xc"][-1] or g["yc"][0] > g["yc"][-1])
+        if k % 2 == 1 or desc:
+            w["touch_first"] = ["geometry", "bounds"]      # see cellsdrv.execute_cells
     # other legal names for dimensions and coordinate variables (every third world)
     NAMES = {"cf1d": [{"lat": "latitude", "lon": "longitude", "ydim": "latitude", "xdim": "longitude", "lat_bounds": "latitude_bounds", "lon_bounds": "longitude_bounds"},
                       {"lat": "nav_lat", "lon": "nav_lon", "ydim": "rows", "xdim": "cols"}],     # coordinates that are not dimension coordinates
